@@ -391,3 +391,21 @@ pub fn from_value(v: &Value<'_>) -> DVal {
     }
 }
 
+
+/// Representation 8 (C03 only): a document that answers every key, with a different value kind
+/// on every call (and sometimes nothing) - user code is allowed to be inconsistent, the engine
+/// must still not panic.
+pub struct FickleDoc {
+    pub values: Vec<MyVal>,
+    pub calls: std::sync::atomic::AtomicUsize,
+}
+impl Document for FickleDoc {
+    fn find(&self, _key: &str) -> Option<Value<'_>> {
+        let i = self.calls.fetch_add(1, std::sync::atomic::Ordering::Relaxed);
+        if i % 7 == 6 || self.values.is_empty() {
+            None
+        } else {
+            Some(self.values[i % self.values.len()].value())
+        }
+    }
+}
